@@ -79,6 +79,7 @@ def snapshot(m, with_xyzr=True, with_local=False):
         for p, i in zip(m.trainable_params, m.indices_set_by_trainables)
     ]
     s["num_trainable_params"] = int(m.num_trainable_params)
+    s["trainable_lists"] = [len(m.trainable_params), len(m.indices_set_by_trainables)]
     s["groups"] = {k: sorted(int(i) for i in np.asarray(v).tolist()) for k, v in m.groups.items()}
     s["ncomp_per_branch"] = [int(i) for i in np.asarray(m.ncomp_per_branch).tolist()] if getattr(m, "ncomp_per_branch", None) is not None else None
     s["comb_parents"] = [int(i) for i in np.asarray(m.comb_parents).tolist()]
